@@ -188,7 +188,11 @@ Inductive xop :=
 | XFailure (id : N)
 | XAdd (v : N)
 | XUnv (id : N)
-| XDisconnect (id : N).
+| XDisconnect (id : N)
+(* runner-only operations (no actions of Model/Admission.v): *)
+| XReady (bucket : N)      (* hook: the pending node of that bucket becomes ready now *)
+| XIter.                   (* a plain iteration over the table (applies every ready pending node); the
+                              queue of applied pending nodes is drained afterwards *)
 
 Definition mode_of (n : N) : ip_mode := if n =? 0 then Ip4 else if n =? 1 then Ip6 else DualStack.
 
@@ -212,6 +216,8 @@ Definition to_aop (recs : list enr) (x : xop) : aop :=
   | XAdd v => AAddEnr (rlookup recs v)
   | XUnv id => AUnverifiable id
   | XDisconnect id => ADisconnect id
+  (* never used: [c12_steps] runs these two on the table directly *)
+  | XReady _ | XIter => ADiscovered 0 []
   end.
 
 Definition add_code (r : add_out) : N :=
@@ -243,10 +249,19 @@ Fixpoint c12_steps (fx : fixes) (recs : list enr) (tfn : enr -> bool) (m : ip_mo
   match steps with
   | [] => None
   | (x, now, expect) :: rest =>
-    let (t', o) := astep (rlookup recs) tfn m fx c t (to_aop recs x) now in
-    let enc := enc_aout (local t) x o ++ [hashN (dump t')] in
+    let '(t', obs) :=
+      match x with
+      | XReady i => (t_force_ready t (N.to_nat i) now, [])
+      | XIter =>
+        (* KBucketsTable::iter, then take_applied_pending until None (as the service loop does) *)
+        (drain_applied (fst (t_iter c t now)), [])
+      | _ =>
+        let (t', o) := astep (rlookup recs) tfn m fx c t (to_aop recs x) now in
+        (t', enc_aout (local t) x o)
+      end in
+    let enc := obs ++ [hashN (dump t')] in
     if list_N_eqb enc expect then c12_steps fx recs tfn m c t' rest (idx + 1)
-    else Some (idx, enc_aout (local t) x o ++ dump t', expect)
+    else Some (idx, obs ++ dump t', expect)
   end.
 
 Definition check_c12_case (fx : fixes) (k : c12case) : option mismatch :=
